@@ -2,7 +2,7 @@
    cfg / marshal / parse are arbitrary (universally quantified): nothing is
    assumed about protobuf.  rename(2) atomicity is the semantics of the
    Rename step in Model.pstep (trusted base). *)
-From CJ Require Import Common.Base C20.Model C20.Proofs C20.Proofs2.
+From CJ Require Import Common.Base C20.Model C20.Proofs C20.Proofs2 C20.Proofs3 C20.Proofs4.
 
 (* For every sequence of API calls (pend w0), every event list evs (process
    steps under arbitrary faults interleaved with the directory vanishing or
@@ -70,3 +70,110 @@ Theorem C20_failed_replace_rolls_back :
       forall c nb, o = SetConf c -> hist w = hist w1 ++ [HDone (cwd w1) nb false] -> mem w = mem w1.
 Proof. exact failed_replace_rolls_back. Qed.
 Print Assumptions C20_failed_replace_rolls_back.
+
+(* The invariant behind the three theorems above, per event: the ClientConf of a
+   directory only ever changes (i) by the environment removing the directory, or
+   (ii) by the Rename step of a store whose temporary -- in the SAME directory --
+   is closed and holds exactly the marshalled in-memory configuration. *)
+Theorem C20_target_changes_only_by_rename :
+  forall (cfg : Type) (marshal : cfg -> option bytes) (parse : bytes -> option cfg)
+         (w0 : world cfg) (evs : list event) (ev : event) (d : dir),
+    pc w0 = Idle ->
+    let w := run cfg marshal parse evs w0 in
+    let w' := run_event cfg marshal parse w ev in
+    target w' d = target w d \/
+    (ev = Env (RmDir d) /\ target w' d = None) \/
+    (exists j r', ev = Step NoFault r' /\ pc w = Closed j /\ jd j = d /\
+                  lookup (d, Tmp (jr j)) (files w) = Some (jbuf j) /\
+                  marshal (mem w) = Some (jbuf j) /\
+                  target w' d = Some (jbuf j)).
+Proof. exact target_step. Qed.
+Print Assumptions C20_target_changes_only_by_rename.
+
+(* Never a mixture, never a truncation, over whole histories: whatever the file
+   holds is what it held initially, or the complete marshalling of a configuration
+   that was in memory at some earlier moment of the execution (or the file is
+   absent because its directory was removed). *)
+Theorem C20_never_partial :
+  forall (cfg : Type) (marshal : cfg -> option bytes) (parse : bytes -> option cfg)
+         (w0 : world cfg) (evs : list event) (d : dir),
+    pc w0 = Idle ->
+    let w := run cfg marshal parse evs w0 in
+    target w d = target w0 d \/
+    (target w d = None /\ removed d evs = true) \/
+    (exists evs1 evs2 b, evs = evs1 ++ evs2 /\
+                         marshal (mem (run cfg marshal parse evs1 w0)) = Some b /\ target w d = Some b).
+Proof. exact never_partial. Qed.
+Print Assumptions C20_never_partial.
+
+(* ... and therefore parseable, given that Unmarshal inverts Marshal. *)
+Theorem C20_stored_file_parses :
+  forall (cfg : Type) (marshal : cfg -> option bytes) (parse : bytes -> option cfg),
+    (forall c b, marshal c = Some b -> parse b = Some c) ->
+    forall (w0 : world cfg) (evs : list event) (d : dir) (content : bytes),
+      pc w0 = Idle ->
+      target (run cfg marshal parse evs w0) d = Some content ->
+      target w0 d = Some content \/
+      exists evs1 evs2, evs = evs1 ++ evs2 /\ parse content = Some (mem (run cfg marshal parse evs1 w0)).
+Proof. exact stored_file_parses. Qed.
+Print Assumptions C20_stored_file_parses.
+
+(* Non-triviality of the model: without faults and interference a store succeeds,
+   its system calls are exactly save_steps (create temporary in the same
+   directory, write everything, close, rename over ClientConf), the temporary is
+   gone and no other file changed. *)
+Theorem C20_store_succeeds_without_faults :
+  forall (cfg : Type) (marshal : cfg -> option bytes) (parse : bytes -> option cfg)
+         (w : world cfg) (o : op cfg) (rest : list (op cfg)) (m' : cfg) (sv : option cfg) (b : bytes) (r : N),
+    pc w = Idle -> pend w = o :: rest -> begin_of o (mem w) = Some (m', sv) -> marshal m' = Some b ->
+    dir_ok (gone w) (cwd w) = true ->
+    let w' := run cfg marshal parse (steps 5 r) w in
+    pc w' = Idle /\ pend w' = rest /\ mem w' = m' /\ cwd w' = cwd w /\ gone w' = gone w /\
+    hist w' = hist w ++ [HDone (cwd w) (Some b) true] /\
+    trace w' = trace w ++ save_steps (cwd w) r b /\
+    target w' (cwd w) = Some b /\
+    lookup (cwd w, Tmp r) (files w') = None /\
+    (forall p, p <> (cwd w, Tmp r) -> p <> (cwd w, Target) -> lookup p (files w') = lookup p (files w)).
+Proof. exact store_succeeds_without_faults. Qed.
+Print Assumptions C20_store_succeeds_without_faults.
+
+(* The statement of DESIGN.md Appendix A: any number of complete stores followed
+   by one that is cut short anywhere leaves the previous or the last configuration. *)
+Theorem C20_crash_atomic_cut :
+  forall (cfg : Type) (marshal : cfg -> option bytes) (parse : bytes -> option cfg)
+         (cs : list cfg) (w : world cfg) (lastc : cfg) (r : N) (k : nat),
+    pc w = Idle ->
+    pend w = map SetConf (cs ++ [lastc]) ->
+    dir_ok (gone w) (cwd w) = true ->
+    Forall (fun c => marshal c <> None) (cs ++ [lastc]) ->
+    (k <= 5)%nat ->
+    let w' := run cfg marshal parse (steps (5 * length cs + k) r) w in
+    target w' (cwd w) = last_marshal cfg marshal cs (target w (cwd w)) \/
+    target w' (cwd w) = marshal lastc.
+Proof. exact crash_atomic_cut. Qed.
+Print Assumptions C20_crash_atomic_cut.
+
+(* Temporary files are stated, not hidden: at every crash point the only file
+   (besides the ClientConf of the current directory) that the store in flight has
+   touched is its own temporary, which holds a prefix of the new bytes, or is
+   untouched, or is gone (renamed away / removed with the directory). *)
+Theorem C20_temp_files_accounted :
+  forall (cfg : Type) (marshal : cfg -> option bytes) (parse : bytes -> option cfg)
+         (w0 : world cfg) (evs : list event),
+    pc w0 = Idle ->
+    exists evs1 evs2,
+      evs = evs1 ++ evs2 /\
+      let w1 := run cfg marshal parse evs1 w0 in
+      let w := run cfg marshal parse evs w0 in
+      pc w1 = Idle /\
+      (evs2 = [] \/
+       exists o rest m' sv r,
+         pend w1 = o :: rest /\ begin_of o (mem w1) = Some (m', sv) /\
+         (forall p, p <> (cwd w1, Tmp r) -> p <> (cwd w1, Target) ->
+                    lookup p (files w) = lookup p (files w1) \/
+                    (lookup p (files w) = None /\ removed (fst p) evs2 = true)) /\
+         ((exists pre buf, marshal m' = Some buf /\ lookup (cwd w1, Tmp r) (files w) = Some pre /\ is_prefix pre buf) \/
+          lookup (cwd w1, Tmp r) (files w) = lookup (cwd w1, Tmp r) (files w1) \/
+          lookup (cwd w1, Tmp r) (files w) = None)).
+Proof. exact temp_files_accounted. Qed.
+Print Assumptions C20_temp_files_accounted.
